@@ -189,7 +189,7 @@ CHECKS = {
                 "replay, re-attribution to another device/counter by the Byzantine member and payloads forged under the sender's "
                 "genuine message key with five kinds of signature. non-trivial = at least one fault applied (always); distinct = "
                 "distinct hash of the session trace. scheduler_or_event_steps counts individual altered envelopes delivered.",
-        "required_probes": ["authentic_opened", "member_forgery_attempted"],
+        "required_probes": ["authentic_opened", "member_forgery_attempted", "forgery_as_opening_device_attempted", "genuine_opens_after_rejected_forgery"],
         "assumptions": COMMON_ASSUMPTIONS + ["the emission point of MessageStore (GroupMessageEvent) is exercised by C08, here the observation point is the secret store API the message store calls"],
     },
     "C14": {
@@ -267,19 +267,24 @@ CHECKS = {
         "assumptions": COMMON_ASSUMPTIONS + ["the adversary is symbolic: it can do anything with bytes and keys it holds, it cannot forge Ed25519 signatures or open boxes without the key"],
     },
     "C12": {
-        "pkg": ".",
-        "test": "TestVerifC12",
         "level": "exploration",
-        "proc_timeout": "60m",
-        "quick": {"procs": 32, "checks_per_proc": 40},
-        "thorough": {"procs": 64, "checks_per_proc": 400},
+        "parts": [
+            {"pkg": ".", "test": "TestVerifC12", "proc_timeout": "60m",
+             "quick": {"procs": 32, "checks_per_proc": 40}, "thorough": {"procs": 64, "checks_per_proc": 400}},
+            {"pkg": ".", "test": "TestVerifC12S", "proc_timeout": "60m", "gomaxprocs": 2,
+             "quick": {"procs": 32, "checks_per_proc": 8}, "thorough": {"procs": 64, "checks_per_proc": 120}},
+        ],
         "rule": "one case = either (a) one random invitation offered to the real GroupJoin of a joiner's account group under every "
                 "single-bit flip of its serialized bytes, field removal, group-type substitution and foreign secret/signature, then "
                 "the genuine invitation and the identity check in the joined group; or (b) a group session of 2-3 members writing "
                 "2-11 metadata/message entries with a replication node (real WeshOrbitDB in replication mode, descriptor only) in "
-                "the simulated network under seeded deliveries. non-trivial = a fault was applied (a) or a simulator-chosen delivery "
+                "the simulated network under seeded deliveries; groups in (b) are multi-member (with or without link-key signature), "
+                "contact and account groups. part 2: one case = a real service (TestingService) receiving a seeded session of 3-10 "
+                "steps over 1-3 invitations: altered copies, genuine ones, activation, deactivation, GroupInfo, with the identity "
+                "oracle on every joined group. non-trivial = a fault was applied (a) or a simulator-chosen delivery "
                 "happened (b); distinct = distinct hash of the trace.",
-        "required_probes": ["genuine_invitation_joined", "replication_node_converged", "descriptor_cannot_read"],
+        "required_probes": ["genuine_invitation_joined", "replication_node_converged", "descriptor_cannot_read",
+                            "refused_before_genuine", "service_joined_group_identity_checked"],
         "assumptions": COMMON_ASSUMPTIONS,
     },
     "C20": {
